@@ -118,6 +118,7 @@ class Effect:
     where: str
     construct: str
     chain: tuple = ()    # call chain from the summarised function down to the sink
+    attr: str = ""       # attr-store: the (mangled) attribute that is rebound
 
     def keytext(self):
         return f"{self.param}{''.join(self.steps)}:{self.kind}:{self.func}:{self.construct}"
@@ -187,7 +188,7 @@ class _FuncAnalysis:
                        self.ctor_attrs if self.is_ctor else None)
 
     # ------------------------------------------------------------------ effects
-    def sink(self, v: V, kind: str, node: ast.AST, chain=(), func=None, construct=None, where=None):
+    def sink(self, v: V, kind: str, node: ast.AST, chain=(), func=None, construct=None, where=None, attr=""):
         for r in v.roots:
             if r[0] != "P":
                 continue
@@ -195,7 +196,7 @@ class _FuncAnalysis:
             if self.is_ctor and param == "self":
                 continue
             e = Effect(param, steps, kind, func or self.f.short, where or self.model.where(self.f, node),
-                       construct or norm(node)[:100], chain)
+                       construct or norm(node)[:100], chain, attr)
             self.effects.setdefault(e.keytext(), e)
 
     # ------------------------------------------------------------------ statements
@@ -357,7 +358,7 @@ class _FuncAnalysis:
             an = self._attr(t.attr)
             if self.is_ctor and isinstance(t.value, ast.Name) and t.value.id == "self":
                 self.ctor_attrs[an] = join(self.ctor_attrs.get(an), v)
-            self.sink(base, "attr-store", stmt)
+            self.sink(base, "attr-store", stmt, attr=an)
             d = dict(base.attrs or ())
             d[an] = join(d.get(an), v) if an in d else v
             newbase = V(base.roots, base.kind if base.kind != "?" else "O", base.elem, tuple(sorted(d.items())), base.items)
@@ -669,7 +670,7 @@ class _FuncAnalysis:
                 # an operand (non-empty path) or known to be a tensor
                 continue
             self.sink(tv, eff.kind, e, chain=(f"{self.f.short} -> {callee.short}",) + eff.chain,
-                      func=eff.func, construct=eff.construct, where=eff.where)
+                      func=eff.func, construct=eff.construct, where=eff.where, attr=eff.attr)
         return self.subst(s.ret, bound)
 
     def instantiate(self, cls_q: str, e: ast.Call, args, kwargs) -> V:
@@ -686,7 +687,7 @@ class _FuncAnalysis:
                     continue
                 self.sink(resolve_path(actual, eff.steps), eff.kind, e,
                           chain=(f"{self.f.short} -> {init.short}",) + eff.chain,
-                          func=eff.func, construct=eff.construct, where=eff.where)
+                          func=eff.func, construct=eff.construct, where=eff.where, attr=eff.attr)
             for n, v in (s.ctor_attrs or {}).items():
                 attrs[n] = self.subst(v, bound)
         return V(frozenset([F]), "O", None, tuple(sorted(attrs.items())))
